@@ -21,7 +21,7 @@ func init() {
 			"(6) file order — FindWALFiles sorts; ReplayWALDir and GetEntriesFrom visit files ascending with the current file last; getEntriesFromFile keeps entries with sequence >= the requested one; (7) the buffered writer is never replaced unflushed. " +
 			"Added after blind round 4: Append routes to the single-record or the fragment writer by exactly the payload size writeRecord builds; the variable-length slices of parseEntryData are bounds-checked (shared with C10).",
 		NotDecided: "equality of replayed and appended sequences for all inputs (the layout agreement plus CRC is its structural part); behaviour with non-monotone sequence numbers.",
-		Rules:      []func(*Ctx, *Reporter){ruleWalHeaderCodec, ruleWalPayloadCodec, ruleWalFragmentation, ruleWalLengthFits, ruleWalCRC, ruleWalFileOrder, ruleWalNoBufferDrop, ruleWalRouteBySize, ruleNoFabrication},
+		Rules:      []func(*Ctx, *Reporter){ruleWalHeaderCodec, ruleWalPayloadCodec, ruleWalFragmentation, ruleWalLengthFits, ruleWalCRC, ruleWalFileOrder, ruleWalNoBufferDrop, ruleWalRouteBySize, ruleNoFabrication, ruleReuseNewestOnly, ruleWalReaderNoConstantLimits},
 	})
 }
 
